@@ -16,10 +16,10 @@
 (*                 the same arguments (the reference) ]                    *)
 (* Classes are small integers assigned by the harness to bitwise-equal     *)
 (* projections (number of geometries, per-geometry vertices, data values). *)
-(* Verdicts: <<"V", id, step, clause, predicted, knobs>>; predicted =       *)
-(* MechObserved breaks the same clause at the same step, knobs = the       *)
-(* single knobs whose intended value removes it.  <<"D", id, step,         *)
-(* clause>> = predicted by MechObserved but not shown by the code (drift). *)
+(* Verdicts: <<"V", id, step, clause, label>>; label = the knob of         *)
+(* MechObserved whose intended value removes the failure ("unexplained" if *)
+(* MechObserved does not break that clause at that step).  <<"D", id,      *)
+(* step, clause>> = predicted by MechObserved, not shown by the code.      *)
 (***************************************************************************)
 EXTENDS PlotMech, Integers, Json, IOUtils
 
@@ -49,7 +49,24 @@ StepFailed(t, q) ==
 RECURSIVE RunTo(_, _, _)
 RunTo(M, t, q) == IF q = 0 THEN St0 ELSE Step(RunTo(M, t, q - 1), t.steps[q].ev, M)
 Predicted(M, t, q) == RunTo(M, t, q).bad
-Explains(t, q, clause) == { kn \in Knobs : clause \notin Predicted(Flip(MechObserved, kn), t, q) }
+\* a call that raises where a fresh grid returns a value corresponds, in the model, to a call that
+\* hands out an object the caller has edited (the cached frame no longer fits the data)
+ModelClause(c) == IF c = "OutcomeOfThisCall" THEN "GeometryOfThisCall" ELSE c
+KnobOrder == <<"gdfDataInto", "gdfReturned", "lineReturned", "sideTables", "gdfCmp">>
+Flip2(M, a, b) == Flip(Flip(M, a), b)
+\* the knob of MechObserved that explains failure c at step q: the first knob (in KnobOrder) whose
+\* intended value alone removes it; a pair if no single knob does; "unexplained" if MechObserved
+\* does not break the clause there at all
+Label(t, q, c) ==
+    LET mc == ModelClause(c) IN
+    IF mc \notin Predicted(MechObserved, t, q) THEN "unexplained"
+    ELSE LET S == { j \in 1..Len(KnobOrder) : mc \notin Predicted(Flip(MechObserved, KnobOrder[j]), t, q) }
+         IN IF S # {} THEN KnobOrder[CHOOSE j \in S : \A x \in S : j <= x]
+            ELSE LET P == { <<a, b>> \in (1..Len(KnobOrder)) \X (1..Len(KnobOrder)) :
+                               a < b /\ mc \notin Predicted(Flip2(MechObserved, KnobOrder[a], KnobOrder[b]), t, q) }
+                 IN IF P # {} THEN LET pr == CHOOSE x \in P : \A y \in P : x[1] < y[1] \/ (x[1] = y[1] /\ x[2] <= y[2])
+                                   IN KnobOrder[pr[1]] \o "&" \o KnobOrder[pr[2]]
+                    ELSE "several"
 
 Init == i \in { -b : b \in 1..NBlocks }
 Next == /\ i < 0
@@ -60,6 +77,6 @@ Judge == i > 0 =>
     \A q \in 1..Len(t.steps) :
         LET f == StepFailed(t, q)
             p == IF f = {} /\ ~t.check_drift THEN {} ELSE Predicted(MechObserved, t, q)
-        IN /\ \A c \in f : PrintT(<<"V", t.id, q, c, c \in p, IF c \in p THEN Explains(t, q, c) ELSE {}>>)
-           /\ \A c \in p \ f : PrintT(<<"D", t.id, q, c>>)
+        IN /\ \A c \in f : PrintT(<<"V", t.id, q, c, Label(t, q, c)>>)
+           /\ \A c \in p \ { ModelClause(x) : x \in f } : PrintT(<<"D", t.id, q, c>>)
 =============================================================================
